@@ -451,7 +451,10 @@ def stimulus(cell):
     dom = src_domain(S) if cell["qual"] != "const" else [None]
     out = []
     if f in ("ret_merge", "ifexp_merge"):
-        for p, c, t in itertools.product(dom, (0, 1), range(1 << width(T))):
+        tdom = src_domain(T)
+        if len(dom) * len(tdom) > 512:  # wide operands (thorough tier): thin out the other branch's values
+            tdom = tdom[::max(1, len(tdom) // 8)]
+        for p, c, t in itertools.product(dom, (0, 1), tdom):
             out.append(({"a": p, "c": c, "t": t}, "src" if c else t))
     else:
         for p in dom:
